@@ -12,7 +12,7 @@ META = {
  "harnesses": {
   "h_pure_gfa1": {"kind": "G",
     "functions": ["every query of the catalogue Q1 (string conversion, field/tag reads, validate*, clone, ==, diff, CIGAR complement/length, link complement/is_*/is_compatible*, _search_link/select/finders, neighbourhood properties, other/other_end, is_cut_*, connected_components, linear_path(s), captured_path, to_gfa2_s of lines, str without sequence)"],
-    "bounds": "3 GFA1 states (asymmetric I/D CIGARs on links, containments, paths along/against links incl. a circular one, header with repeated tags, vlevel 1 and 3) x every query q1 of the catalogue called twice x follow-up query q2 (quick: 3 observer queries on the richest state, str(gfa) on the other two; thorough: every query on the richest state, a third of the (q1, q2) pairs on the other two): written form and full observation unchanged, repeated answers equal",
+    "bounds": "3 GFA1 states (asymmetric I/D CIGARs on links, containments, paths along/against links incl. a circular one, header with repeated tags, vlevel 1 and 3) x every query q1 of the catalogue called twice x follow-up query q2 (quick: 3 observer queries on the richest state, str(gfa) on the other two; thorough: additionally a quarter of all (q1, q2) pairs of the catalogue on the richest state): written form and full observation unchanged, repeated answers equal",
     "timeout": {"quick": 400, "thorough": 900}, "parts": {"quick": 16, "thorough": 16}},
   "h_pure_gfa2": {"kind": "G",
     "functions": ["every query of the catalogue Q2 (as Q1 plus E/G/F/O/U accessors, captured_path/segments/edges, induced_set/segments/edges, validate_positions, to_gfa1_s of lines, overlap/pos of E lines, custom records)"],
@@ -206,8 +206,8 @@ def _run(states, cat, si, q1, q2, tag):
     g = gfapy.Gfa(list(doc), vlevel=vl)
     snap = _snapshot(g)
   n1, f1 = vp.pick(cat, q1)
-  if THOROUGH:
-    n2, f2 = vp.pick(cat, q2)
+  if q2 >= len(OBSERVERS):
+    n2, f2 = vp.pick(cat, q2 - len(OBSERVERS))            # (thorough tier only)
   else:
     n2 = vp.pick(OBSERVERS, q2); f2 = [f for (n, f) in cat if n == n2][0]
   def call(f):
@@ -229,13 +229,14 @@ def _run(states, cat, si, q1, q2, tag):
 
 NQ1 = len(Q1)
 NQ2 = len(Q2)
-NO1 = len(Q1) if THOROUGH else len(OBSERVERS)
-NO2 = len(Q2) if THOROUGH else len(OBSERVERS)
+NOBS = len(OBSERVERS)
+NO1 = (len(Q1) + NOBS) if THOROUGH else NOBS
+NO2 = (len(Q2) + NOBS) if THOROUGH else NOBS
 
 def h_pure_gfa1(si: int, q1: int, q2: int) -> bool:
   """
   pre: 0 <= si < 3 and 0 <= q1 < NQ1 and 0 <= q2 < NO1
-  pre: (THOROUGH and (q1 + q2) % 3 == 0) or si == 0 or q2 == 0
+  pre: (q2 < NOBS and (si == 0 or q2 == 0)) or (q2 >= NOBS and si == 0 and (q1 + q2) % 4 == 0)
   pre: (q1 + q2) % NPART == PART
   post: _ == True
   """
@@ -245,7 +246,7 @@ def h_pure_gfa1(si: int, q1: int, q2: int) -> bool:
 def h_pure_gfa2(si: int, q1: int, q2: int) -> bool:
   """
   pre: 0 <= si < 3 and 0 <= q1 < NQ2 and 0 <= q2 < NO2
-  pre: (THOROUGH and (q1 + q2) % 3 == 0) or si == 0 or q2 == 0
+  pre: (q2 < NOBS and (si == 0 or q2 == 0)) or (q2 >= NOBS and si == 0 and (q1 + q2) % 4 == 0)
   pre: (q1 + q2) % NPART == PART
   post: _ == True
   """
